@@ -1,6 +1,7 @@
 import MsiModel.PkgApi
 import MsiModel.WireExpr
 import MsiModel.QueryFmt
+import MsiModel.StmtLex
 /-
 Session interpreter of the driver: executes the package-level requests of the line
 protocol on the model and renders replies in the canonical form shared with the harness.
@@ -78,6 +79,38 @@ def snapshot (s : Pkg) : String :=
 
 def raw (s : Pkg) : String :=
   " ".intercalate (hexSort (s.cont.map fun e => s!"{Wire.hexOfStr e.name}={Wire.hexOfBytes e.data}"))
+
+/-- the columns of a condition are grammar identifiers (the domain of the reading theorems) -/
+def condGood : Option Ast → Bool
+  | none => true
+  | some e => e.columns.all goodIdentB
+
+/-- self-check of the statement-reading theorems (C19b) on the very text that is diffed against
+the real `to_string()`: in the theorems' domain, reading the text gives the statement back -/
+def checkedUpdate (tn : List Char) (ups : List (List Char × Value)) (cond : Option Ast) : String :=
+  match QueryFmt.fmtUpdate tn ups cond with
+  | some x =>
+    if goodIdentB tn && !ups.isEmpty && ups.all (fun p => goodIdentB p.1) && condGood cond
+        && StmtLex.readUpdateText x != some (tn, ups, cond) then
+      "MODEL-READER-DISAGREES " ++ Wire.hexOfStr x
+    else Wire.hexOfStr x
+  | none => "unmodelled"
+
+def checkedDelete (tn : List Char) (cond : Option Ast) : String :=
+  match QueryFmt.fmtDelete tn cond with
+  | some x =>
+    if goodIdentB tn && condGood cond && StmtLex.readDeleteText x != some (tn, cond) then
+      "MODEL-READER-DISAGREES " ++ Wire.hexOfStr x
+    else Wire.hexOfStr x
+  | none => "unmodelled"
+
+def checkedInsert (tn : List Char) (rows : List (List Value)) : String :=
+  match QueryFmt.fmtInsert tn rows with
+  | some x =>
+    if goodIdentB tn && StmtLex.readInsertText x != some (tn, rows) then
+      "MODEL-READER-DISAGREES " ++ Wire.hexOfStr x
+    else Wire.hexOfStr x
+  | none => "unmodelled"
 
 /-- condition: `-` or an expression in prefix form (consumes the rest) -/
 def parseCond (toks : List String) : Option (Option Ast × List String) :=
@@ -303,7 +336,7 @@ def step (st : State) (toks : List String) : Option (State × String) :=
     match Wire.strOfHex t, k.toNat? with
     | some tn, some kn =>
       (parseRowsAux kn rest []).map fun rows =>
-        (st, match QueryFmt.fmtInsert tn rows with | some x => Wire.hexOfStr x | none => "unmodelled")
+        (st, checkedInsert tn rows)
     | _, _ => none
   | "fmtq" :: "update" :: t :: k :: rest =>
     match Wire.strOfHex t, k.toNat? with
@@ -311,7 +344,7 @@ def step (st : State) (toks : List String) : Option (State × String) :=
       match parseAssign kn rest [] with
       | some (ups, r1) =>
         match parseCond r1 with
-        | some (cond, []) => some (st, match QueryFmt.fmtUpdate tn ups cond with | some x => Wire.hexOfStr x | none => "unmodelled")
+        | some (cond, []) => some (st, checkedUpdate tn ups cond)
         | _ => none
       | none => none
     | _, _ => none
@@ -319,7 +352,7 @@ def step (st : State) (toks : List String) : Option (State × String) :=
     match Wire.strOfHex t, n.toNat? with
     | some tn, some k =>
       match parseConds k rest none with
-      | some (cond, []) => some (st, match QueryFmt.fmtDelete tn cond with | some x => Wire.hexOfStr x | none => "unmodelled")
+      | some (cond, []) => some (st, checkedDelete tn cond)
       | _ => none
     | _, _ => none
   | "fmtq" :: "updatew" :: t :: k :: rest =>
@@ -330,14 +363,14 @@ def step (st : State) (toks : List String) : Option (State × String) :=
         match n.toNat? with
         | some nn =>
           match parseConds nn r1 none with
-          | some (cond, []) => some (st, match QueryFmt.fmtUpdate tn ups cond with | some x => Wire.hexOfStr x | none => "unmodelled")
+          | some (cond, []) => some (st, checkedUpdate tn ups cond)
           | _ => none
         | none => none
       | _ => none
     | _, _ => none
   | "fmtq" :: "delete" :: t :: rest =>
     match Wire.strOfHex t, parseCond rest with
-    | some tn, some (cond, []) => some (st, match QueryFmt.fmtDelete tn cond with | some x => Wire.hexOfStr x | none => "unmodelled")
+    | some tn, some (cond, []) => some (st, checkedDelete tn cond)
     | _, _ => none
   | ["snapshot"] => some (withPkg st fun s => (st, snapshot s))
   | ["raw"] => some (withPkg st fun s => (st, raw s))
